@@ -156,6 +156,37 @@ type flushView struct {
 	preA, preB, postA, postB Snap
 	state                    *synchronization.State
 	flushErr                 error
+	preArchive               *core.Entry // the session's own record before the flush (cross-check only)
+	haveArchive              bool
+}
+
+func entryAt(e *core.Entry, p string) *core.Entry {
+	if p == "" {
+		return e
+	}
+	for _, c := range strings.Split(p, "/") {
+		if e == nil {
+			return nil
+		}
+		e = e.Contents[c]
+	}
+	return e
+}
+
+// entryMatches compares the session's record of a path with a disk object.
+func entryMatches(e *core.Entry, o *Obj) bool {
+	if e == nil || o == nil {
+		return e == nil && o == nil
+	}
+	switch o.Kind {
+	case 'd':
+		return e.Kind == core.EntryKind_Directory
+	case 'f':
+		return e.Kind == core.EntryKind_File && fmt.Sprintf("%x", e.Digest) == o.Digest && e.Executable == o.exec()
+	case 'l':
+		return e.Kind == core.EntryKind_SymbolicLink && e.Target == o.Target
+	}
+	return false
 }
 
 // lostContent applies the statement "a cycle never deletes or overwrites
@@ -174,6 +205,16 @@ func (h *history) lostContent(side string, pre, post Snap, rule string, v *flush
 		h.count("l3_paths_removed_or_replaced_by_flush", 1)
 		sh := h.shadow[p]
 		if contentEq(o, sh) {
+			// cross-check (not a verdict): mutagen's own record of the last
+			// synchronization should say the same as the shadow here
+			if v.haveArchive {
+				if entryMatches(entryAt(v.preArchive, p), o) {
+					h.count("l3_archive_crosscheck_agrees", 1)
+				} else {
+					h.count("l3_archive_crosscheck_disagrees", 1)
+					h.logf("cross-check: archive holds %s at %s, shadow and root held %v", describeEntry(entryAt(v.preArchive, p)), quote(p), o)
+				}
+			}
 			continue
 		}
 		cls := protectedClass(p, o)
@@ -344,6 +385,9 @@ func (h *history) run() error {
 		}
 		if v.preB, err = takeSnap(h.roots.beta); err != nil {
 			return err
+		}
+		if arch, err := sess.archive(); err == nil {
+			v.preArchive, v.haveArchive = arch.Content, true
 		}
 		h.logf("round %d: flush (alpha %d objects, beta %d objects)", round, len(v.preA), len(v.preB))
 		st, flushErr, waitErr := sess.flush()
